@@ -162,6 +162,70 @@ theorem C17_defined_stable (d : List (Name × Int)) (hd : enumOk d = true) (ops 
       · rw [h2] at h; cases h
     exact ⟨hg, by rw [callName_strict_fst, callName_strict_fst, hg]⟩
 
+/-- **Defined members, iteration and length, stated outright.**  In every reachable state: `list(E)` is the list of
+canonical members of the body; these are the lines of the body in declaration order with the later lines of a repeated
+value (alias names) left out - a sublist of the body, every defined value exactly once, no hidden member; `len(E)` is
+the length of that list, i.e. the number of distinct defined values, NOT the number of names; `list(reversed(E))` is
+that list reversed; `E[name]` for every name of the body, alias names included, is the member of that list with the
+value written on the line; `v in E` holds exactly for the defined values and `m in E` for every member iteration
+yields, while the hidden member of an unknown value is not `in E`. -/
+theorem C17_members_iteration_length (d : List (Name × Int)) (hd : enumOk d = true) (ops : List EnumOp) :
+    ((DynEnum.ofDefined d).run ops).iter = .ok (canonicalMembers d) ∧
+    ((DynEnum.ofDefined d).run ops).len = .ok (canonicalMembers d).length ∧
+    ((DynEnum.ofDefined d).run ops).reversedIter = .ok (canonicalMembers d).reverse ∧
+    (canonicalMembers d).Sublist (d.map fun p => (⟨p.1, p.2⟩ : EnumMember)) ∧
+    ((canonicalMembers d).map (·.value)).Nodup ∧
+    (∀ v, v ∈ (canonicalMembers d).map (·.value) ↔ v ∈ definedValues d) ∧
+    (∀ m ∈ canonicalMembers d, m.isUnrecognized = false) ∧
+    (∀ p ∈ d, ∃ m ∈ canonicalMembers d, ((DynEnum.ofDefined d).run ops).getItem p.1 = .ok m ∧ m.value = p.2) ∧
+    (∀ v, ((DynEnum.ofDefined d).run ops).containsValue v = decide (v ∈ definedValues d)) ∧
+    (∀ m ∈ canonicalMembers d, ((DynEnum.ofDefined d).run ops).containsMember m = true) ∧
+    (∀ v, v ∉ definedValues d → ((DynEnum.ofDefined d).run ops).containsMember ⟨hiddenName v, v⟩ = false) := by
+  have B := base_ofDefined hd
+  have S := C17_defined_stable d hd ops
+  obtain ⟨_, hnd, hh⟩ := enumOk_spec hd
+  have hplain : ∀ m ∈ canonicalMembers d, m.isUnrecognized = false := fun m hm =>
+    hh _ (List.mem_reverse.1 (canonRev_mem hm))
+  have hmem0 := membersOf_ofDefinedRev d.reverse (nodup_reverse_map hnd)
+  have hrev0 : (DynEnum.ofDefined d).reversedIter = .ok (canonicalMembers d).reverse := by
+    have := (reversedIter_of_members (e := DynEnum.ofDefined d) hmem0).2
+    rw [this]
+    show Except.ok _ = Except.ok (canonRev d.reverse).reverse
+    congr 2
+    rw [List.filter_eq_self]
+    intro m hm
+    simp only [hplain m hm, Bool.not_false]
+  refine ⟨S.1, S.2.2.1, ?_, ?_, canonRev_values_nodup _, ?_, hplain, ?_, ?_, ?_, ?_⟩
+  · rw [(B.run_eq ops).1, B.reversed_withExtras, hrev0]
+  · have := canonRev_sublist d.reverse
+    rwa [List.reverse_reverse] at this
+  · intro v
+    have := canonRev_values d.reverse v
+    rwa [List.map_reverse, List.mem_reverse] at this
+  · intro p hp
+    obtain ⟨m, a, _, hv, _⟩ := S.2.2.2.2.1 p hp
+    obtain ⟨m', hm', _⟩ := lookup_ofDefinedRev d.reverse (nodup_reverse_map hnd) p (List.mem_reverse.2 hp)
+    have hm' : dget p.1 (DynEnum.ofDefined d).map = some m' := hm'
+    have e1 := (getItem_withExtras_present (seenAfter (DynEnum.ofDefined d) [] ops) p.1 hm').1
+    rw [← (B.run_eq ops).1, a] at e1
+    injection e1 with e1
+    subst e1
+    exact ⟨m, (CanonInv.ofDefinedRev d.reverse).mapCanon _ (dget_mem hm'), a, hv⟩
+  · intro v
+    rw [(B.run_eq ops).1, B.contains_withExtras]
+    by_cases hv : v ∈ definedValues d
+    · rw [decide_eq_true hv]; exact (known_iff_defined d v).2 hv
+    · rw [decide_eq_false hv]
+      cases h : (dget v (DynEnum.ofDefined d).v2m).isSome with
+      | false => rfl
+      | true => exact absurd ((known_iff_defined d v).1 h) hv
+  · intro m hm
+    simp only [DynEnum.containsMember, hplain m hm, Bool.not_false]
+  · intro v _
+    have := hiddenMember_unrecognized v
+    simp only [DynEnum.containsMember, hiddenMember] at this ⊢
+    rw [this]; rfl
+
 /-- The only name lookups a history can change are hidden-name lookups: if `E[n]` after a history differs from
 `E[n]` on the fresh class, then it now returns an unrecognised member whose value is one of the unknown values seen,
 and `n` (or `n.upper()`) starts with the hidden prefix.  (`E['_U_3']` raises `KeyError` on the fresh class and
@@ -225,6 +289,20 @@ theorem C17_package_enums (e : PyEnum) (he : e ∈ PyEnums.all) (ops : List Enum
   obtain ⟨m, a, b, _⟩ := hs.2.2.2.2.1 p hp
   rw [a, b]
 
+/-- ... and the members / iteration / length clause for every IntEnum subclass of the package, in every reachable
+state; the facts `PyEnums.e<N>_members` (decided by the kernel on each regeneration) tie the member list the
+translator computed from the interpreter's table (first name of every distinct value, in declaration order - what the
+harness's oracle expects `list(E)` to show and `len(E)` to count) to `canonicalMembers`. -/
+theorem C17_package_members (e : PyEnum) (he : e ∈ PyEnums.all) (ops : List EnumOp) :
+    ((DynEnum.ofDefined e.defn).run ops).iter = .ok (canonicalMembers e.defn) ∧
+    ((DynEnum.ofDefined e.defn).run ops).len = .ok (canonicalMembers e.defn).length ∧
+    ((DynEnum.ofDefined e.defn).run ops).reversedIter = .ok (canonicalMembers e.defn).reverse ∧
+    (∀ p ∈ e.defn, ∃ m ∈ canonicalMembers e.defn,
+        ((DynEnum.ofDefined e.defn).run ops).getItem p.1 = .ok m ∧ m.value = p.2) ∧
+    (∀ v, ((DynEnum.ofDefined e.defn).run ops).containsValue v = decide (v ∈ definedValues e.defn)) := by
+  have h := C17_members_iteration_length e.defn (PyEnums.all_ok e he) ops
+  exact ⟨h.1, h.2.1, h.2.2.1, h.2.2.2.2.2.2.2.1, h.2.2.2.2.2.2.2.2.1⟩
+
 /-- The mask classes of the package: for any list of captured members, by member or by name (any case),
 `to_bitmask` gives the same mask and `to_values` returns exactly those members. -/
 theorem C17_package_masks (m : PyMask) (hm : m ∈ PyEnums.masks) (S : List EnumMember) (hS : ∀ x ∈ S, x ∈ m.enumValues) :
@@ -249,6 +327,11 @@ example : enumOk c17Body = true := by decide
 #guard enumOkIs ((DynEnum.ofDefined c17Body).run [.conv 3 false, .conv (-2) false]).iter (canonicalMembers c17Body)
 #guard enumOkIs (((DynEnum.ofDefined c17Body).run [.conv 3 false]).getItem [95, 117, 95, 51]) ⟨[95, 85, 95, 51], 3⟩   -- E['_u_3']
 #guard enumErrIs ((DynEnum.ofDefined c17Body).getItem [95, 85, 95, 51]) .keyError
+#guard enumOkIs ((DynEnum.ofDefined c17Body).run [.conv 3 false, .conv (-2) false]).len 3               -- four names, three members
+#guard enumOkIs ((DynEnum.ofDefined c17Body).run [.conv 3 false]).reversedIter [⟨[68], 7⟩, ⟨[66], 1⟩, ⟨[65], 0⟩]
+#guard enumOkIs (((DynEnum.ofDefined c17Body).run [.conv 3 false]).getItem [67]) ⟨[66], 1⟩                   -- E['C'] is E.B
+#guard ((DynEnum.ofDefined c17Body).run [.conv 3 false]).containsValue 1 && !((DynEnum.ofDefined c17Body).run [.conv 3 false]).containsValue 3
+#guard !(DynEnum.ofDefined c17Body).containsValue 3
 #guard enumOkIs (toBitmask (-1) [] [.val 7, .val 0]) 258
 #guard enumOkIs (toValues (-1) 258 (canonicalMembers c17Body)) [⟨[65], 0⟩, ⟨[68], 7⟩]
 #guard enumOkIs (maskToString (-1) 258 (canonicalMembers c17Body)) [65, 44, 32, 68]                    -- 'A, D'
